@@ -219,9 +219,14 @@ def run_check(mod):
     # 2. run the implementation + oracle
     obs, oracle_fail, known_hits = [], [], {}
     for idx, c in enumerate(cases):
-        o = mod.run_impl(c)
+        try:
+            o = mod.run_impl(c)
+            f = mod.oracle(c, o)
+        except Exception as e:      # the harness itself failed on this input: never silently, never as a crash of the check
+            import traceback
+            o = {'harness_error': repr(e)[:300], 'where': traceback.format_exc()[-800:], 'trace': [], 'final': None}
+            f = {'signature': 'harness_error:%s' % type(e).__name__, 'kind': repr(e)[:200]}
         obs.append(o)
-        f = mod.oracle(c, o)
         if f is not None:
             sig = f.get('signature', 'unclassified')
             if sig in open_sigs:
@@ -232,9 +237,11 @@ def run_check(mod):
     # 3. the model on the same cases, inside Coq
     mismatches, corr_errors = [], []
     if not b['corr_broken']:
-        terms = [mod.to_coq(c, o) for c, o in zip(cases, obs)]
+        good = [i for i, o in enumerate(obs) if not (isinstance(o, dict) and 'harness_error' in o)]
+        terms = [mod.to_coq(cases[i], obs[i]) for i in good]
         mismatches, corr_errors = coqio.run_cases(prop, mod.CORR_MODULE, mod.CASE_TYPE, getattr(mod, 'MISMATCH_FN', 'mismatches'), terms,
                                                   shard=getattr(mod, 'SHARD', 300))
+        mismatches = [good[i] for i in mismatches]
     else:
         corr_errors = [{'file': 'Corr/Corr_%s.v' % prop, 'stderr': b['corr_broken']}]
 
